@@ -62,6 +62,19 @@ Proof.
   cbn. rewrite !andb_true_iff, !N.leb_le, N.ltb_lt. tauto.
 Qed.
 
+Lemma wf_vec_inv t l : wf (TVec t l) = true -> wf t = true /\ sized t = true /\ wf_int l = true.
+Proof. cbn [wf]. rewrite !andb_true_iff. tauto. Qed.
+Lemma wf_flex_inv t l : wf (TFlex t l) = true -> wf t = true /\ wf_int l = true.
+Proof. cbn [wf]. rewrite !andb_true_iff. tauto. Qed.
+Lemma wf_arr_inv t n : wf (TArr t n) = true -> wf t = true /\ sized t = true.
+Proof. cbn [wf]. rewrite !andb_true_iff. tauto. Qed.
+Lemma narrow_vec_inv t l : narrow_ty (TVec t l) = true -> narrow_ty t = true /\ narrow l = true.
+Proof. cbn [narrow_ty]. rewrite !andb_true_iff. tauto. Qed.
+Lemma narrow_flex_inv t l : narrow_ty (TFlex t l) = true -> narrow_ty t = true /\ narrow l = true.
+Proof. cbn [narrow_ty]. rewrite !andb_true_iff. tauto. Qed.
+Lemma narrow_enum_inv s tag d vs : narrow_ty (TEnum s tag d vs) = true -> narrow tag = true /\ narrow_variants vs = true.
+Proof. cbn [narrow_ty]. rewrite !andb_true_iff. tauto. Qed.
+
 Lemma wf_int_P16 i : wf_int i = true -> P16 (isize i) /\ P16 (ialign i).
 Proof.
   unfold wf_int. rewrite andb_true_iff, orb_true_iff, !N.eqb_eq. intros [H1 H2].
